@@ -64,7 +64,7 @@ func plan(c *vf.Ctx) []spec {
 		}
 	}
 	// mix: every combination once, then further passes over the valid ones
-	passes := c.N(1, 16)
+	passes := c.N(1, 26)
 	var cases []bcase
 	cases = append(cases, combos...)
 	for p := 0; p < passes; p++ {
@@ -119,17 +119,19 @@ func plan(c *vf.Ctx) []spec {
 		jobs = append(jobs, spec{Kind: "cut", Seed: c.Seed, Writers: writers, Prepop: c.N(150, 300), Cases: cs})
 	}
 	if !c.Quick() {
-		// dense sweep: every byte position of the stream of a small database
-		// (binary), for each (compress, mode); split into slices
-		const slices = 4
+		// dense sweep: every byte position of the stream of a small database, and
+		// every 97th position of the stream of the large one, for each (compress, mode)
 		for _, mode := range []string{"reset", "eof"} {
 			for _, comp := range []bool{false, true} {
-				for s := 0; s < slices; s++ {
-					d := bcase{No: no, Fmt: "binary", Compress: comp, Route: "forward", CutMode: mode}
-					no++
-					jobs = append(jobs, spec{Kind: "cut", Seed: c.Seed, Writers: writers, Prepop: 120,
-						Dense: &d, DenseLo: s * 1000 / slices, DenseHi: (s + 1) * 1000 / slices, DenseStep: 1})
-				}
+				d := bcase{No: no, Fmt: "binary", Compress: comp, Route: "forward", CutMode: mode}
+				no++
+				jobs = append(jobs, spec{Kind: "cut", Seed: c.Seed, Writers: writers, Prepop: 8,
+					Dense: &d, DenseLo: 0, DenseHi: 1000, DenseStep: 1})
+				d2 := d
+				d2.No = no
+				no++
+				jobs = append(jobs, spec{Kind: "cut", Seed: c.Seed, Writers: writers, Prepop: 300,
+					Dense: &d2, DenseLo: 0, DenseHi: 1000, DenseStep: 97})
 			}
 		}
 	}
@@ -210,6 +212,10 @@ func run(c *vf.Ctx) {
 						c.Extra("stream_len_bytes_max", rec.J.StreamLen)
 					}
 				}
+			}
+			if lb, err := os.ReadFile(logp); err == nil {
+				c.Count("leader_log:failed_to_stream_backup", int64(bytes.Count(lb, []byte("failed to stream backup"))))
+				c.Count("http_log:superfluous_WriteHeader_in_handleBackup", int64(bytes.Count(lb, []byte("superfluous response.WriteHeader call from github.com/rqlite/rqlite/v10/http.(*Service).handleBackup"))))
 			}
 			if !ok || code != 0 || !done {
 				c.Logf("job %d (%s): exit=%d finished=%v complete=%v results=%d (log tail: %s)", j.Job, j.Kind, code, ok, done, n, tail(logp))
@@ -348,12 +354,18 @@ func judge(c *vf.Ctx, r *bres) {
 			key = "remote-compressed:stream-end-not-detected:timeout-error-appended-to-200"
 		case ex.ErrTail != "":
 			// an error message was appended to a body that had already been started
-			key = "error-after-body-started:reported-as-200:" + bc.Route
-			if isCut {
-				key = "error-after-body-started:reported-as-200:forward-cut:" + comp
+			// (key by the path that produced the body, whatever made it fail)
+			key = "error-after-body-started:reported-as-200:local"
+			if bc.Route == "forward" {
+				key = "error-after-body-started:reported-as-200:forward:" + comp
 			}
+		case bc.Route == "forward" && bc.Compress && (bc.CutMode == "eof" || !isCut):
+			// the leader's end of the inter-node connection was closed before the
+			// end of the stream (injected peer-close, or the leader's own backup
+			// failing: cluster/service.go logs it and closes the connection)
+			key = "truncated-as-success:forward:compress:peer-closed"
 		case isCut:
-			key = fmt.Sprintf("truncated-as-success:forward-cut:%s:%s", comp, bc.CutMode)
+			key = fmt.Sprintf("truncated-as-success:forward:%s:%s", comp, bc.CutMode)
 		default:
 			key = fmt.Sprintf("unrestorable:%s:%s:%s", bc.Fmt, comp, bc.Route)
 		}
